@@ -345,3 +345,22 @@ Proof.
            f_equal. unfold line; cbn [nth x y]. field. }
   split; [exact Hd|]. apply C16_checked_rejects_unsorted; exact Hd.
 Qed.
+
+(** ** Tie A for the bracketing scan: the model's [scan] IS the source's loop.
+    [Generated/interp_loops.v] is regenerated on every run from src/functions/interpolate.rs by the statement-level
+    translator (tools/rsexpr.py, [LoopTranslator.fragment]; target tools/tiea/interp_loops.py): the two statements
+    [let mut idx = 0; for j in 0..n - 1 { if x[j] > tgt[i] { break; } idx += 1; }] as a fold with [break] over the range,
+    with checked reads and the wrapped [n - 1] ([usize] in [Z], a panic is [None]).  (tools/tiea/interp_dispatch.py only
+    pattern-checks these statements.)  For every carrier, at least one abscissa and a target in bounds the generated loop
+    returns [scan x (n - 1) tgt[i]]; with no abscissa it panics. *)
+Local Close Scope R_scope.
+From Coq Require Import ZArith.
+From Compute Require Import Base.RsExpr Generated.interp_loops Proofs.TieA_interp_loops.
+Theorem C16_model_is_source_scan :
+  forall (T : Type) (O : Ops T) (x tgt : list T) (i : nat) (t : T),
+    nth_error tgt i = Some t -> (1 <= length x)%nat ->
+    src_scan O x tgt (Z.of_nat i) (Z.of_nat (length x)) = Some (Z.of_nat (scan O x (length x - 1) t)).
+Proof. exact @tiea_scan. Qed.
+Theorem C16_model_is_source_scan_empty :
+  forall (T : Type) (O : Ops T) (tgt : list T) (i : Z), src_scan O [] tgt i 0%Z = None.
+Proof. exact @tiea_scan_empty. Qed.
